@@ -398,6 +398,13 @@ def main():
             except Exception as e:      # noqa
                 out.setdefault("warnings", []).append("let %s: %s" % (nm, e))
         env0.update(lets)
+        pre_evals = {}
+        for cl in spec.get("clauses", []):
+            if cl.get("when") == "raise-pre":
+                try:
+                    pre_evals[cl["label"]] = bool(native_eval(cl["text"], env0))
+                except Exception as e:      # noqa
+                    pre_evals[cl["label"]] = "error: %s" % e
         observed = {}
         try:
             if inspect.iscoroutinefunction(target):
@@ -420,7 +427,12 @@ def main():
         evals = []
         for cl in spec.get("clauses", []):
             r = {"label": cl["label"], "text": cl["text"]}
-            if cl.get("when") == "post":
+            if cl.get("when") == "raise-pre":
+                if isinstance(pre_evals.get(cl["label"]), bool):
+                    r["value"] = pre_evals[cl["label"]]
+                else:
+                    r["error"] = str(pre_evals.get(cl["label"]))
+            if cl.get("when") == "post" and observed.get("outcome") == "return":
                 try:
                     r["value"] = bool(native_eval(cl["text"], env0, olds))
                 except Exception as e:      # noqa
